@@ -818,4 +818,154 @@ theorem runDecision_again (g : Graph) (sa : State) (n w : Nat) (hn : n < sa.node
         rw [← h.1]
         exact ⟨_, _, rfl⟩
 
+/-! ## lazy expansion: no unexplored flat node -/
+
+/-- every flat node has been unrolled for some worker (or found incompatible): the loop never postpones a cleanup -/
+def Explored (g : Graph) (s : State) : Prop := unexploredNodes (vis g s) s = []
+
+theorem vis_congr (g : Graph) (s s' : State) (h : s'.hidden = s.hidden) : vis g s' = vis g s := by
+  unfold vis; rw [h]
+
+theorem vis_cls (g : Graph) (s : State) (i : Nat) : ((vis g s).node i).cls = (g.node i).cls := (sameStatic_vis g s).cls i
+
+theorem explored_iff (g : Graph) (s : State) :
+    Explored g s ↔ ∀ n, n < g.nodes.length → (g.node n).flat = true → isUnrolled (vis g s) s n none = true := by
+  unfold Explored unexploredNodes
+  rw [List.filter_eq_nil_iff]
+  simp only [List.mem_range, (sameStatic_vis g s).len, vis_flat, Bool.and_eq_true, Bool.not_eq_true', not_and,
+    Bool.not_eq_false]
+
+theorem isUnrolled_none_mono (g : Graph) (s s' : State) (hh : ∀ x, x ∈ s'.hidden → x ∈ s.hidden)
+    (hi : ∀ x, x ∈ s.incompatible → x ∈ s'.incompatible) (f : Nat)
+    (h : isUnrolled (vis g s) s f none = true) : isUnrolled (vis g s') s' f none = true := by
+  obtain ⟨su, cl, hv⟩ := vis_node g s f
+  obtain ⟨su', cl', hv'⟩ := vis_node g s' f
+  have hid : ∀ c, (vis g s').nodeId c = (vis g s).nodeId c := by
+    intro c
+    obtain ⟨a, b, h1⟩ := vis_node g s c
+    obtain ⟨a', b', h2⟩ := vis_node g s' c
+    unfold Graph.nodeId; rw [h1, h2]
+  have hsr : ((vis g s').node f).sharedRoot = ((vis g s).node f).sharedRoot := by rw [hv, hv']
+  have hsl : ((vis g s').node f).setless = ((vis g s).node f).setless := by rw [hv, hv']
+  unfold isUnrolled at h ⊢
+  rw [hsr, hsl]
+  by_cases hr : ((vis g s).node f).sharedRoot = true
+  · simp only [hr, if_true]
+  · simp only [hr, Bool.false_eq_true, if_false, Bool.or_eq_true, List.any_eq_true, Bool.not_eq_true',
+      List.isEmpty_eq_false_iff_exists_mem] at h ⊢
+    rcases h with ⟨x, hx, hxf⟩ | ⟨c, hc⟩
+    · exact Or.inl ⟨x, hi x hx, hxf⟩
+    · right
+      refine ⟨c, ?_⟩
+      rw [List.mem_filter] at hc ⊢
+      refine ⟨?_, by rw [hid]; exact hc.2⟩
+      obtain ⟨e, he, hec⟩ := List.mem_map.mp hc.1
+      have h1 := ((mem_vis_edges g s f e).2).mp he
+      refine List.mem_map.mpr ⟨e, ((mem_vis_edges g s' f e).2).mpr ⟨h1.1, ?_, ?_⟩, hec⟩
+      · cases hcx : s'.hidden.contains f
+        · rfl
+        · have := hh f (by simpa using hcx)
+          have h2 := h1.2.1
+          simp at h2
+          exact absurd this h2
+      · cases hcx : s'.hidden.contains e.1
+        · rfl
+        · have := hh e.1 (by simpa using hcx)
+          have h2 := h1.2.2
+          simp at h2
+          exact absurd this h2
+
+theorem Explored.mono {g : Graph} {s s' : State} (h : Explored g s) (hh : ∀ x, x ∈ s'.hidden → x ∈ s.hidden)
+    (hi : ∀ x, x ∈ s.incompatible → x ∈ s'.incompatible) : Explored g s' := by
+  rw [explored_iff] at h ⊢
+  intro n hn hf
+  exact isUnrolled_none_mono g s s' hh hi n (h n hn hf)
+
+theorem Explored.keep {g : Graph} {s s' : State} (h : Explored g s) (k : Keep s s') : Explored g s' :=
+  h.mono (fun x hx => by rw [← k.hidden]; exact hx) (fun x hx => by rw [k.incompatible]; exact hx)
+
+/-- the expansion step when nothing is unexplored: the flag read by the postponement test is off, registers, node
+records and paths stay, the explored part only grows -/
+theorem prepare_explored (g : Graph) (s : State) (w : Nat) (hexp : Explored g s) (hw : w < s.workers.length) :
+    (prepare g s w).regs = s.regs ∧ (prepare g s w).nodes = s.nodes ∧
+    (prepare g s w).workers.length = s.workers.length ∧
+    (∀ v, ((prepare g s w).wd v).path = (s.wd v).path) ∧
+    ((s.wd w).path ≠ [] → ((prepare g s w).wd w).unexplored = false) ∧
+    Explored g (prepare g s w) := by
+  unfold prepare
+  dsimp only
+  cases hl : (s.wd w).path.getLast? with
+  | none =>
+    refine ⟨rfl, rfl, rfl, fun _ => rfl, fun hne => ?_, hexp⟩
+    rw [List.getLast?_eq_none_iff] at hl
+    exact absurd hl hne
+  | some next =>
+    dsimp only
+    have hu : (!(unexploredNodes (vis g s) s).isEmpty) = false := by
+      unfold Explored at hexp; rw [hexp]; rfl
+    rw [hu]
+    have hpath : ∀ v, ((s.setWd w (fun d => { d with unexplored := false })).wd v).path = (s.wd v).path :=
+      fun v => wd_setWd_proj (·.path) s w (fun d => { d with unexplored := false }) (fun _ => rfl) v
+    have hun : ((s.setWd w (fun d => { d with unexplored := false })).wd w).unexplored = false := by
+      rw [wd_setWd_eq s w _ hw]
+    have hexpA : Explored g (s.setWd w (fun d => { d with unexplored := false })) := hexp.keep (keep_setWd s w _)
+    split
+    · unfold reveal
+      dsimp only
+      split
+      · refine ⟨rfl, rfl, by simp [State.setWd], hpath, fun _ => hun, ?_⟩
+        exact hexpA.mono (fun x hx => hx) (fun x hx => List.mem_append_left _ hx)
+      · refine ⟨rfl, rfl, by simp [State.setWd], hpath, fun _ => hun, ?_⟩
+        exact hexpA.mono (fun x hx => (List.mem_filter.mp hx).1) (fun x hx => hx)
+    · exact ⟨rfl, rfl, by simp [State.setWd], hpath, fun _ => hun, hexpA⟩
+
+/-! ## picks -/
+
+theorem pickChild_spec (gv : Graph) (s : State) (n w c : Nat) (s' : State) (h : pickChild gv s n w = some (c, s')) :
+    c ∈ (gv.node n).cleanup.map (·.1) ∧
+    (regWorkers (s.cr (gv.node n).cls).droppedCleanup (some (gv.node c).cls)).contains w = false ∧
+    ∃ f : ClassRegs → ClassRegs, s' = s.setCr (gv.node c).cls f ∧
+      ∀ r, (f r).droppedSetup = r.droppedSetup ∧ (f r).droppedCleanup = r.droppedCleanup := by
+  unfold pickChild at h
+  dsimp only at h
+  split at h
+  · simp at h
+  · rename_i d r hs
+    simp only [Option.some.injEq, Prod.mk.injEq] at h
+    have hd := pk_mem_stableSort _ d _ (by rw [hs]; exact List.mem_cons_self)
+    rw [List.mem_filter] at hd
+    have h2 := hd.2
+    simp only [Bool.and_eq_true, Bool.not_eq_true'] at h2
+    rw [← h.1]
+    exact ⟨hd.1, h2.2, _, h.2.symm, fun _ => ⟨rfl, rfl⟩⟩
+
+theorem pickParent_spec (gv : Graph) (s : State) (n w c : Nat) (s' : State) (h : pickParent gv s n w = some (c, s')) :
+    c ∈ (gv.node n).setup.map (·.1) ∧
+    (regWorkers (s.cr (gv.node n).cls).droppedSetup (some (gv.node c).cls)).contains w = false ∧
+    ∃ f : ClassRegs → ClassRegs, s' = s.setCr (gv.node c).cls f ∧
+      ∀ r, (f r).droppedSetup = r.droppedSetup ∧ (f r).droppedCleanup = r.droppedCleanup := by
+  unfold pickParent at h
+  dsimp only at h
+  split at h
+  · simp at h
+  · rename_i d r hs
+    simp only [Option.some.injEq, Prod.mk.injEq] at h
+    have hd := pk_mem_stableSort _ d _ (by rw [hs]; exact List.mem_cons_self)
+    rw [List.mem_filter] at hd
+    have h2 := hd.2
+    simp only [Bool.and_eq_true, Bool.not_eq_true'] at h2
+    rw [← h.1]
+    exact ⟨hd.1, h2.2, _, h.2.symm, fun _ => ⟨rfl, rfl⟩⟩
+
+/-- edges of the visible graph are edges of the full graph -/
+theorem vis_setup_sub (g : Graph) (s : State) (n p : Nat) (h : p ∈ ((vis g s).node n).setup.map (·.1)) :
+    p ∈ (g.node n).setup.map (·.1) := by
+  obtain ⟨e, he, rfl⟩ := List.mem_map.mp h
+  exact List.mem_map.mpr ⟨e, (((mem_vis_edges g s n e).1).mp he).1, rfl⟩
+
+theorem vis_cleanup_sub (g : Graph) (s : State) (n c : Nat) (h : c ∈ ((vis g s).node n).cleanup.map (·.1)) :
+    c ∈ (g.node n).cleanup.map (·.1) := by
+  obtain ⟨e, he, rfl⟩ := List.mem_map.mp h
+  exact List.mem_map.mpr ⟨e, (((mem_vis_edges g s n e).2).mp he).1, rfl⟩
+
 end I2N.Trav.Term
